@@ -20,7 +20,7 @@ def main(tier, only=None):
             c02b.run(rep, thorough, only)
         if not only:
             from relsmt import conform
-            conform.run(rep, 'C02', thorough, families=('join', 'agg', 'topn'))
+            conform.run(rep, 'C02', thorough, families=('join', 'join2', 'agg', 'topn'))
             conform.run_hetero(rep, thorough)
     rep.cov['states'] = max(1, rep.cov['programs'])
     rep.cov['transitions'] = max(1, rep.cov['obligations'])
